@@ -100,6 +100,25 @@ class SimLoop(asyncio.base_events.BaseEventLoop):
         if table.get(fd) == (cb, args):
             cb(*args)
 
+    # --- executors: no real threads.  A function handed to an executor runs later on the loop, after a virtual
+    # latency chosen by the simulator, so that other connections' events interleave deterministically.
+    executor_latencies = (0.0, 0.001, 0.05, 0.5)
+
+    def run_in_executor(self, executor, func, *args):
+        fut = self.create_future()
+        self._exec_seq = getattr(self, "_exec_seq", 0) + 1
+        delay = self.executor_latencies[(self._exec_seq * 7 + getattr(self, "exec_salt", 0)) % len(self.executor_latencies)]
+
+        def run():
+            if fut.cancelled():
+                return
+            try:
+                fut.set_result(func(*args))
+            except BaseException as e:   # noqa
+                fut.set_exception(e)
+        self.call_later(delay, run)
+        return fut
+
     # never touch real sockets / subprocess watchers
     async def shutdown_default_executor(self, timeout=None):
         return None
